@@ -367,6 +367,18 @@ pub fn gen(out: &mut dyn Write, family: &str, thorough: bool, seed: u64) {
             }
         }
         "C10" => {
+            // dictionary words of 255, 256, 257 and 300 characters that occur in the corpus (their examples against the enumeration)
+            for len in [255usize, 256, 257, 300] {
+                let w: String = (0..len).map(|i| ['a', 'b'][i % 2]).collect();
+                let c = TrCase {
+                    cw: 1, cn: 1, tw: 1, tn: 1, ml: [4u8, 255][len % 2], solver: 1,
+                    dict: vec![w.clone(), "あ".into()], tagdict: vec![],
+                    corpus: vec![('t', format!("あ {w} い {w} あい")), ('t', "い あ あ い".into())],
+                    eval: vec!["あい".into()],
+                    trace: None,
+                };
+                writeln!(out, "{}", c.to_line(oracle)).unwrap();
+            }
             // more than 2^16 annotated boundaries in one trainer (oracle-only: the stored examples against the enumeration)
             let c = TrCase {
                 cw: 2, cn: 2, tw: 1, tn: 1, ml: 2, solver: 5,
